@@ -731,6 +731,20 @@ func privStmt(r *Rng, i int) string {
 		e = "(" + tgt + "." + x + ", " + tgt + "." + r.Pick(privAllNames) + ")"
 	case 14:
 		e = tgt + "." + x + "." + r.Pick([]string{"length", "call(" + tgt + ", 1)"})
+		if r.Chance(50) {
+			// tagged templates through private members, also through a parenthesised optional chain (repaired F20)
+			// (V8 aborts - "Check failed: reg.index() == ..." - when it compiles a tagged template whose tag is an
+			// optional chain ending in a private ACCESSOR, so those names are tagged only without "?.")
+			y := x
+			if y == "#ga" || y == "#sa" || y == "#p" || y == "#sp" {
+				y = r.Pick([]string{"#f", "#g", "#h", "#m", "#sf", "#sm"})
+			}
+			// the tag of "(o?.#y)`...`" is undefined when the chain short-circuits or the member is nullish: the
+			// lowered ".call" then throws before the substitutions are evaluated (findings C05-F4 / C05-F13),
+			// so the substitutions have no observable evaluation
+			sub := "${1}"
+			e = r.Pick([]string{"(" + tgt + "?." + y + ")`a" + sub + "b`", tgt + "." + x + "`c`", "(" + tgt + "?." + y + ")`d`"})
+		}
 	default:
 		e = "typeof " + tgt + "." + x
 	}
